@@ -71,6 +71,18 @@ check('C15', 'exploration', 'reference-model monitor: compiled residuals/Jacobia
       'Reference: forward-mode dual numbers over the generator tree (vlib/gen/expr.py), nothing from wntr. Points outside the domain of definition are '
       'rejected and resampled. A clean sanitizer run means 0 report blocks on these histories, not memory safety.', 'DESIGN.md#C15')
 
+check('C14', 'exploration', 'invariant at a hook + shadow-model monitor: every view of WaterNetworkModel read after every operation of random edit histories, compared with each other and with a lock-step shadow; refusal oracle (raised + full snapshot unchanged)',
+      'Histories of 10-200 add/remove/reassign operations (all element kinds, duplicate names, missing end nodes, in-use removals, with_control) '
+      'from empty, seeded and example models; after every operation all name lists, counts, typed iterators, describe(0-2), link end objects, '
+      'get_links_for_node x3 flags, to_graph, usage/orphaned/unused of five registries, typed curve views and control requirements are checked '
+      'for mutual consistency and against the shadow model; refused operations must leave a full snapshot unchanged.',
+      'Shadow model: 120 lines of dicts, independent of the registries. force=True removals are outside the workload.', 'DESIGN.md#C14')
+check('C13', 'exploration', 'round-trip oracle: to_dict -> JSON -> from_dict -> to_dict structural diff per path (3 paths + second cycle), plus logical-shape comparison of rule conditions',
+      'G-model (every element kind and attribute, vertices/tags on all link types, multi-demand and demand-less junctions, curves, sources, '
+      'timed leaks, controls and rules) and the example files; dict/json, write_json/read_json and append-to-empty paths; every differing path '
+      'is reported with its path class as mechanism key; rule conditions are additionally compared as AND-of-OR shapes because identical text can hide a regrouping.',
+      'Normalisations are exactly those of the statement (tuples, empty pattern names, demand-less junction -> one zero demand) plus runs of blanks in control text.', 'DESIGN.md#C13')
+
 NOT_YET = 'monitor not built yet in this commit (planned in DESIGN.md section 4)'
 ALL = ['C%02d' % i for i in range(1, 21)]
 
